@@ -112,7 +112,7 @@ func (self *Parser) singletonIdent() (ast.SpannedIdent, *errors.Error) {
 
 	return ast.NewSpannedIdent(
 		fmt.Sprintf("$%s", identValue),
-		startLoc.Until(self.CurrentToken.Span.End, self.Filename),
+		startLoc.Until(self.PreviousToken.Span.End, self.Filename),
 	), nil
 }
 
